@@ -1326,7 +1326,7 @@ def main():
     chk.assumptions += [
         "MPLEX, lzma, sie, gd_putdata are outside the Coq model; they are covered by implementation-vs-specification comparison only",
         "LRU auto-close decisions depend on time(NULL); the harness reports which files were closed and the model takes them as CAuto events (theorems hold for every choice)",
-        "all RAW fields of one generated dirfile share spf; MULTIPLY inputs have equal extents (unequal rates/extents are C01/C16)",
+        "in the main histories all RAW fields of one dirfile share spf and MULTIPLY inputs have equal extents; inputs of different rates are section 2d (values; sample counts near the end of such fields are C16)",
     ]
     try:
         exe = harness("")
@@ -1499,7 +1499,7 @@ def main():
                        "theorem": "bz_read/bz_seek error exits of coq/C02/Model.v (dec_bz2_crc) no longer describe bzip.c"}, found=False)
 
     # ---- 2d. inputs of different sample rates: one value per sample, alone or inside any window
-    nmix = 300 if not chk.thorough else 8000
+    nmix = 300 if not chk.thorough else 4000
     mixed_bad = {}
     nm_multi = 0
     for k in range(nmix):
@@ -1525,7 +1525,7 @@ def main():
              "case": c2, "op_index": i, "expected": exp, "got": got, "how": "checks/C02.py make_dirfile + harness/C02/gdhist.c"})
 
     # ---- 2e. long runs of one failing call (every failure kind) between reads of healthy, deeply derived fields
-    nfail = 100 if not chk.thorough else 2500
+    nfail = 100 if not chk.thorough else 1200
     fail_bad = None
     for k in range(nfail):
         case = gen_failing(rng)
